@@ -17,6 +17,16 @@ CHECKS = {
          'Stage-callback clock checked at every step of every run; convergence order measured by successive halving for autonomous and time-dependent problems, uniform and non-uniform schedules; iterator input immutability checked by a recording wrapper.',
          'Order is an empirical slope on 7 ODE families (one-sided: at least order 0.6 / 3.0 decay between halvings); no fault dimension exists for this property and none is pretended.',
          'DESIGN.md 4/C06'),
+ 'C07': ('exploration', 600, 3600,
+         'deterministic simulation: operation-history state machine over the real PopulationBalanceModel; transport step compared face by face with a scalar upwind reference',
+         'Seeded search over operation histories and step inputs (growth fields, nucleation terms, step factors, Euler/RK4 calling pattern); every transport step checked against a scalar reference (upwind faces, sum rule, nucleation class, per-face limiter, step limit, non-negativity of limit-obeying classes).',
+         'Admissible PBM configurations only; corrected face fluxes read from the anchored attribute _netFlux; inputs are a seeded sample, not a sweep. Known finding: nucleus above the grid is clamped into the last class.',
+         'DESIGN.md 4/C07'),
+ 'C08': ('exploration', 600, 3600,
+         'deterministic simulation: operation-history state machine (extend, re-mesh, adjust, update, backup/revert, reset, load, moment queries) over the real PopulationBalanceModel with invariants after every op',
+         'Seeded search over op sequences of up to 25 operations with grid invariants after every op and op-specific reference checks (extension leaves classes untouched, third moment preserved on covering re-mesh, maxBins respected, reset/revert restore, moment functions depend only on the supplied distribution).',
+         'Admissible PBM configurations only; revert only after a backup; PSD recording is not part of C08. Known finding: coarsening re-mesh can drop a sparse distribution entirely.',
+         'DESIGN.md 4/C08'),
 }
 
 NOT_APPLICABLE = {
